@@ -46,6 +46,39 @@ pub fn kmer(seed: u64, runs: usize, maxlen: usize) {
     println!("{}", json!({"ev":"eof"}));
 }
 
+/// long sequence: positions beyond 2^16. dense: clean bases with an ambiguous byte every few thousand; otherwise 3000 clean
+/// bases, then ambiguous bytes with short clean islands up to position 66 000, then clean bases again to the end
+fn long_seq(rng: &mut Rng, n: usize, dense: bool) -> Vec<u8> {
+    (0..n)
+        .map(|x| {
+            let amb = if dense { x % 4099 == 4098 || x == 65_537 } else { x >= 3000 && x < 66_000 && x % 997 > 5 };
+            if amb { *rng.pick(b"N-*.") } else { *rng.pick(b"ACGTacgtUu") }
+        })
+        .collect()
+}
+
+/// trace kmerlong <seed> <len> <dense>: one run of the k-mer iterator over a sequence of <len> bases (positions beyond 2^16)
+pub fn kmer_long(seed: u64, len: usize, dense: bool) {
+    let mut rng = Rng::new(seed);
+    let k = *rng.pick(&[3usize, 5, 16, 31]);
+    let s = long_seq(&mut rng, len, dense);
+    kmer_run(&s, k);
+    println!("{}", json!({"ev":"eof"}));
+}
+
+/// trace minlong <seed> <len> <kv> <dense>: one run of a minimiser iterator over a sequence of <len> bases
+pub fn min_long(seed: u64, len: usize, kv: bool, dense: bool) {
+    let mut rng = Rng::new(seed);
+    let (w, m) = *rng.pick(&[(12usize, 7usize), (20, 5), (31, 28), (9, 8)]);
+    let s = long_seq(&mut rng, len, dense);
+    if kv {
+        kmermin_run(&s, w, m);
+    } else {
+        minimiser_run(&s, w, m);
+    }
+    println!("{}", json!({"ev":"eof"}));
+}
+
 /// trace kmerbytes: every byte 4..255 alone and between clean bases, k = 1, 2 (the class table)
 pub fn kmer_bytes() {
     for k in 1..=2usize {
